@@ -32,7 +32,7 @@ def run(pid):
 
     rnd = random.Random(seed() * 41 + 18)
     jobs = []
-    n = 24 if t == "quick" else 200
+    n = 24 if t == "quick" else 1200
     for i in range(n):
         ch = rnd.choice([1, 2, 2, 2, 3, 6, 8])
         bps = rnd.choice([8, 16, 16, 24, 32])
@@ -42,11 +42,11 @@ def run(pid):
                      "opts": {"block_size": bs, "max_lpc": rnd.choice([-1, 4, 8, 12, 32]), "max_po": rnd.choice([0, 3, 6]),
                               "mid_side": rnd.random() < 0.7, "fast_corr": rnd.random() < 0.4, "window": rnd.choice(corpus.WINDOWS),
                               "padding": rnd.choice([-1, 100]), "seektable": rnd.choice(["none", {"frames": 1}])},
-                     "pcm": {"signal": rnd.choice(["walk", "sine", "noise", "stereo", "wasted", "const", "impulse"]), "seed": rnd.randint(1, 10 ** 6), "frames": frames}})
+                     "pcm": {"signal": rnd.choice(["walk", "sine", "noise", "stereo", "wasted", "const", "impulse", "ramp", "constlo", "fade", "blockmix", "chanmix"]), "seed": rnd.randint(1, 10 ** 6), "frames": frames}})
     sp = os.path.join(wd, "serial.ndjson")
     run_drive("serial", {"out": sp, "jobs": jobs}, wd, tag="serial")
     pools = [1, 2, 3, 4, 8, 16]
-    reps = 3 if t == "quick" else 5
+    reps = 3 if t == "quick" else 8
 
     def drive(th):
         tp = os.path.join(wd, "par_%d.ndjson" % th)
